@@ -236,7 +236,7 @@ Ltac unfold_dom :=
     in_domain_kMinPathError, in_domain_kLeastAbsErrors, in_domain_kErrDAG, in_domain_kPathCover, in_domain_MinPathCover,
     in_domain_MinErrorFlow, in_domain_kFlowDecompCycles, in_domain_MinFlowDecompCycles, in_domain_kLeastAbsErrorsCycles,
     in_domain_kMinPathErrorCycles, in_domain_kErrCycles, in_domain_kPathCoverCycles, in_domain_MinPathCoverCycles,
-    dom_graph_dag, dom_graph_cyc, dom_size, dom_ign, dom_starts, dom_weights, dom_cons, dom_flow, origin_ok in *.
+    dom_graph_dag, dom_graph_cyc, dom_size, dom_ign, dom_starts, dom_weights, dom_cons, dom_covlen, dom_flow, origin_ok in *.
 
 (* ================================================================== stDAG *)
 Theorem validate_sound_stDAG i : validate_stDAG i = RaiseValueError -> in_domain_stDAG i = false.
@@ -274,7 +274,7 @@ Definition ex_graph : input :=
   {| nodes_str := [true; true]; n_edges := 2; acyclic := false; has_source := true; has_sink := true;
      origin := OEdge; wtype := TFloat;
      elems := [ {| e_w := WPos; e_ign := false |}; {| e_w := WPos; e_ign := false |} ];
-     conserving := true; k := KInt 2; cons := []; cov := 1%Q; starts := []; ends := []; ign := []; search_enters := true |}.
+     conserving := true; k := KInt 2; cons := []; cov := 1%Q; cov_len := None; has_len_attr := false; starts := []; ends := []; ign := []; search_enters := true |}.
 
 (* ================================================================== NodeExpandedDiGraph *)
 Theorem validate_sound_NodeExpandedDiGraph i :
@@ -426,33 +426,38 @@ Ltac complete_script i :=
 Definition set_cons (i : input) (cs : list constr) (c : Q) : input :=
   {| nodes_str := nodes_str i; n_edges := n_edges i; acyclic := acyclic i; has_source := has_source i; has_sink := has_sink i;
      origin := origin i; wtype := wtype i; elems := elems i;
-     conserving := conserving i; k := k i; cons := cs; cov := c; starts := starts i; ends := ends i; ign := ign i;
+     conserving := conserving i; k := k i; cons := cs; cov := c; cov_len := cov_len i; has_len_attr := has_len_attr i; starts := starts i; ends := ends i; ign := ign i;
      search_enters := search_enters i |}.
 Definition set_k (i : input) (kk : ktag) : input :=
   {| nodes_str := nodes_str i; n_edges := n_edges i; acyclic := acyclic i; has_source := has_source i; has_sink := has_sink i;
      origin := origin i; wtype := wtype i; elems := elems i;
-     conserving := conserving i; k := kk; cons := cons i; cov := cov i; starts := starts i; ends := ends i; ign := ign i;
+     conserving := conserving i; k := kk; cons := cons i; cov := cov i; cov_len := cov_len i; has_len_attr := has_len_attr i; starts := starts i; ends := ends i; ign := ign i;
      search_enters := search_enters i |}.
 Definition set_origin (i : input) (o : origin_tag) (w : wtype_tag) : input :=
   {| nodes_str := nodes_str i; n_edges := n_edges i; acyclic := acyclic i; has_source := has_source i; has_sink := has_sink i;
      origin := o; wtype := w; elems := elems i;
-     conserving := conserving i; k := k i; cons := cons i; cov := cov i; starts := starts i; ends := ends i; ign := ign i;
+     conserving := conserving i; k := k i; cons := cons i; cov := cov i; cov_len := cov_len i; has_len_attr := has_len_attr i; starts := starts i; ends := ends i; ign := ign i;
      search_enters := search_enters i |}.
 Definition set_flags (i : input) (acy cons_ se : bool) (ns : list bool) : input :=
   {| nodes_str := ns; n_edges := n_edges i; acyclic := acy; has_source := has_source i; has_sink := has_sink i;
      origin := origin i; wtype := wtype i; elems := elems i;
-     conserving := cons_; k := k i; cons := cons i; cov := cov i; starts := starts i; ends := ends i; ign := ign i;
+     conserving := cons_; k := k i; cons := cons i; cov := cov i; cov_len := cov_len i; has_len_attr := has_len_attr i; starts := starts i; ends := ends i; ign := ign i;
      search_enters := se |}.
 Definition set_elems (i : input) (es : list elem) (se : bool) : input :=
   {| nodes_str := nodes_str i; n_edges := n_edges i; acyclic := acyclic i; has_source := has_source i; has_sink := has_sink i;
      origin := origin i; wtype := wtype i; elems := es;
-     conserving := conserving i; k := k i; cons := cons i; cov := cov i; starts := starts i; ends := ends i; ign := ign i;
+     conserving := conserving i; k := k i; cons := cons i; cov := cov i; cov_len := cov_len i; has_len_attr := has_len_attr i; starts := starts i; ends := ends i; ign := ign i;
      search_enters := se |}.
 Definition set_starts (i : input) (hs : bool) (sts : list bool) : input :=
   {| nodes_str := nodes_str i; n_edges := n_edges i; acyclic := acyclic i; has_source := hs; has_sink := has_sink i;
      origin := origin i; wtype := wtype i; elems := elems i;
-     conserving := conserving i; k := k i; cons := cons i; cov := cov i; starts := sts; ends := ends i; ign := ign i;
+     conserving := conserving i; k := k i; cons := cons i; cov := cov i; cov_len := cov_len i; has_len_attr := has_len_attr i; starts := sts; ends := ends i; ign := ign i;
      search_enters := search_enters i |}.
+Definition set_covlen (i : input) (l : option Q) (a : bool) : input :=
+  {| nodes_str := nodes_str i; n_edges := n_edges i; acyclic := acyclic i; has_source := has_source i; has_sink := has_sink i;
+     origin := origin i; wtype := wtype i; elems := elems i;
+     conserving := conserving i; k := k i; cons := cons i; cov := cov i; cov_len := l; has_len_attr := a; starts := starts i;
+     ends := ends i; ign := ign i; search_enters := search_enters i |}.
 Definition ex_dag : input := set_flags ex_graph true true true [true; true].
 Definition neg_elem := {| e_w := WNeg; e_ign := false |}.
 Definition ign_elem := {| e_w := WPos; e_ign := true |}.
